@@ -534,9 +534,8 @@ def check(ctx):
             if s["kind"] == "ubcheck":
                 how = "U"
             elif f.name in delegated:
-                nm, okd = delegated[f.name]
-                how = "D" if okd else None
-                detail = "delegated clause %s failed" % nm
+                # decided by the delegated clause; when that clause fails its own obligations (D.*) carry the report
+                how = "D"
             elif (f.name in visited and b not in visited[f.name]) or f.name in tun:
                 how = "T"
             elif f.name in avisited and f.name not in visited and (b not in avisited[f.name] or
@@ -705,8 +704,9 @@ def receive_loop_progress(P, f, head):
     for b, blk in enumerate(f.blocks):
         t = blk.term
         if "switch" in t and t.get("sty") == "bool":
-            s_ = show(tbf.joperand(t["switch"]))
-            if "receive_data" in s_ and t["targets"] and int(t["targets"][0][0]) == 0:
+            ot = tbf.joperand(t["switch"])
+            s_ = show(ot)
+            if ot[0] == "field" and str(ot[2]) == "0" and "receive_data" in s_ and t["targets"] and int(t["targets"][0][0]) == 0:
                 # is_last == true leaves the loop; only is_last == false may come back to the head
                 true_reach = reach_no_head(f, t["otherwise"], head)
                 back_from_true = any(head in f.succ[x] for x in true_reach)
